@@ -69,7 +69,7 @@ where
     if request == "make:uv-unconfigured" {
         uv.verification_cap = Some(false);
     }
-    let cfg = AuthCfg { counter: request == "make:counter", id_len: None, hmac: if uv_only { 1 } else { 2 }, hmac_mc: true };
+    let cfg = AuthCfg { counter: request == "make:counter", id_len: None, hmac: if uv_only { 1 } else { 2 }, hmac_mc: true, order: 0 };
     let silent = request.starts_with("get:silent");
     if silent {
         uv.outcome = UvOutcome::Ok { presence: false, verification: false };
@@ -92,7 +92,25 @@ where
         if request.starts_with("make") {
             let ext = Some(webauthn::AuthenticationExtensionsClientInputs { cred_props: Some(true), prf: request.ends_with("-prf").then(wprf), prf_already_hashed: None });
             let sel = Some(webauthn::AuthenticatorSelectionCriteria { authenticator_attachment: None, resident_key: None, require_resident_key: true, user_verification: Default::default() });
-            let opts = creation_options(Reg { user_id: vec![7, 7], selection: sel, extensions: ext, ..Default::default() });
+            let mut opts = creation_options(Reg { user_id: vec![7, 7], selection: sel, extensions: ext, ..Default::default() });
+            if let Some(rest) = request.strip_prefix("make:client-att-") {
+                use webauthn::{AttestationConveyancePreference as P, AttestationStatementFormatIdentifiers as F};
+                let (a, f) = rest.split_once('-').unwrap_or((rest, "absent"));
+                opts.public_key.attestation = match a {
+                    "indirect" => P::Indirect,
+                    "direct" => P::Direct,
+                    "enterprise" => P::Enterprise,
+                    _ => P::None,
+                };
+                opts.public_key.attestation_formats = match f {
+                    "empty" => Some(vec![]),
+                    "packed" => Some(vec![F::Packed]),
+                    "none" => Some(vec![F::None]),
+                    "packed+none" => Some(vec![F::Packed, F::None]),
+                    "tpm+apple" => Some(vec![F::Tpm, F::Apple]),
+                    _ => None,
+                };
+            }
             return Res::Make(client.register(&origin, opts, passkey_client::DefaultClientData).await.map(|c| c.raw_id.to_vec()).map_err(byte));
         }
         let ext = Some(webauthn::AuthenticationExtensionsClientInputs { cred_props: None, prf: Some(wprf()), prf_already_hashed: None });
@@ -384,7 +402,17 @@ fn plans(tier: Tier) -> Vec<BTreeMap<usize, u8>> {
 /// (request, store, plan) triples; cancellation points are expanded per triple at run time.
 pub fn bases(tier: Tier) -> Vec<Case> {
     let mut v = vec![];
-    for request in MAKE.iter().chain(GET.iter()) {
+    // registrations through the client with every attestation preference x attestationFormats shape
+    // (request content the client looks at on its own; whenever it answers with an error, nothing
+    // may have been stored)
+    let mut att: Vec<String> = vec![];
+    for a in ["none", "indirect", "direct", "enterprise"] {
+        for f in ["absent", "empty", "packed", "none", "packed+none", "tpm+apple"] {
+            att.push(format!("make:client-att-{a}-{f}"));
+        }
+    }
+    let all: Vec<String> = MAKE.iter().chain(GET.iter()).map(|s| s.to_string()).chain(att).collect();
+    for request in all.iter().map(|s| s.as_str()) {
         for store in ["ref", "ref+mutex", "ref+rwlock"] {
             for plan in plans(tier) {
                 v.push(Case { request: request.to_string(), store: store.into(), plan, cancel_after: None });
@@ -395,10 +423,10 @@ pub fn bases(tier: Tier) -> Vec<Case> {
             // holds one credential: keep the requests that make sense for them
             // (a registration into the occupied single slot replaces its content by design: afterwards
             // the slot holds the new credential and nothing else)
-            if store == "option+rwlock" && !matches!(*request, "get:allow" | "get:prf" | "make:plain" | "make:counter" | "make:prf" | "make:client-credprops") {
+            if store == "option+rwlock" && !matches!(request, "get:allow" | "get:prf" | "make:plain" | "make:counter" | "make:prf" | "make:client-credprops") {
                 continue;
             }
-            if *request == "get:no-list" && store == "memory+mutex" {
+            if request == "get:no-list" && store == "memory+mutex" {
                 continue;
             }
             v.push(Case { request: request.to_string(), store: store.into(), plan: BTreeMap::new(), cancel_after: None });
@@ -428,7 +456,7 @@ pub fn run(ctx: &Ctx) -> Result<Run, String> {
     }
     let mut run = Run::from_stats(
         "fault_enumeration",
-        "requests {make through the client with credProps (and prf), get through the client with prf; make: plain, exclude-list hit, exclude-list miss, non-rk, PRF, counter, PRF evaluation that fails late (verification-gated secrets, unverified ceremony), unsupported algorithm, pin-auth, verification unconfigured; get: allow list, no list, PRF, counter-less, PRF on a credential without secret, PRF that fails late, stored counter at 2^32-1 (with and without a late failure), pin-auth, two listed credentials, two listed credentials with counters of which the first fails after its counter write (both list orders), silent (up = uv = false, nothing reported) with and without PRF} x store stack {contract store, behind Arc<Mutex>, behind Arc<RwLock>} x fault plans over the faultable store calls (every single call x 6 status codes, every subset of >= 2 calls with KeyStoreFull; thorough: subsets x 6 codes and single faults x all 256 bytes) x cancellation after every k < polls-to-completion (every store call and the user step suspend once); plus cancellation-only runs on Arc<Mutex<MemoryStore>> and on an occupied Arc<RwLock<Option<Passkey>>> (assertions, and registrations - plain, with counter, with PRF, through the client - after which the slot holds the new credential and nothing else). Oracle: store snapshot before/after against a model that applies only the calls that returned Ok, call log, result. Every (request, store, plan, cancellation point) is a distinct case",
+        "requests {make through the client with credProps (and prf), make through the client with every attestation preference (4) x attestationFormats shape (absent, empty, [packed], [none], [packed, none], [tpm, apple]), get through the client with prf; make: plain, exclude-list hit, exclude-list miss, non-rk, PRF, counter, PRF evaluation that fails late (verification-gated secrets, unverified ceremony), unsupported algorithm, pin-auth, verification unconfigured; get: allow list, no list, PRF, counter-less, PRF on a credential without secret, PRF that fails late, stored counter at 2^32-1 (with and without a late failure), pin-auth, two listed credentials, two listed credentials with counters of which the first fails after its counter write (both list orders), silent (up = uv = false, nothing reported) with and without PRF} x store stack {contract store, behind Arc<Mutex>, behind Arc<RwLock>} x fault plans over the faultable store calls (every single call x 6 status codes, every subset of >= 2 calls with KeyStoreFull; thorough: subsets x 6 codes and single faults x all 256 bytes) x cancellation after every k < polls-to-completion (every store call and the user step suspend once); plus cancellation-only runs on Arc<Mutex<MemoryStore>> and on an occupied Arc<RwLock<Option<Passkey>>> (assertions, and registrations - plain, with counter, with PRF, through the client - after which the slot holds the new credential and nothing else). Oracle: store snapshot before/after against a model that applies only the calls that returned Ok, call log, result. Every (request, store, plan, cancellation point) is a distinct case",
         true,
         stats,
     );
